@@ -232,6 +232,23 @@ def run_case(case, ctx):
     with ctx.lib("reading the superoperator after the context", mechanism=None):
         ctx.check("apply==propagate", float(numpy.max(numpy.abs(numpy.array(eU.data) - U))), 64 * EPS * dim * dim * Mn, dict(det, how="data after leaving the context"))
 
+    # the same object calculated again: unchanged, and inside the eigenbasis context of the Hamiltonian (read after the context is left)
+    with ctx.lib("calculate() again on the same object", mechanism=None):
+        with contextlib.redirect_stdout(out):
+            eU.calculate(show_progress=False)
+            U_again = numpy.array(eU.data)
+            U_ctx = None
+            if not case["pdeph"]:
+                # (pure dephasing is documented as intentionally not basis managed: it belongs to the basis it was defined in)
+                hctx2 = qr.Hamiltonian(data=numpy.array(ham._data, dtype=float).copy())
+                with qr.eigenbasis_of(hctx2):
+                    eU.calculate(show_progress=False)
+                U_ctx = numpy.array(eU.data)
+    ctx.check("apply==propagate", float(numpy.max(numpy.abs(U_again - U))), 0.0, dict(det, how="second calculate() on the same object"))
+    if U_ctx is not None:
+        ctx.check("apply==propagate", float(numpy.max(numpy.abs(U_ctx - U))), 4096 * EPS * Nt * dense * dim * dim * Mn * Mn,
+                  dict(det, how="calculate() repeated inside eigenbasis_of(H), read after the context is left"))
+
     # jit history vs all-at-once
     with ctx.lib("calculate_next history", mechanism=None):
         with contextlib.redirect_stdout(out):
